@@ -67,6 +67,7 @@ type totReq struct {
 	Only   string `json:"only,omitempty"` // run only the entry point of this name (multi-megabyte inputs: limited entry points only)
 }
 
+const negLimitEntry = "ParseSchemaWithLimit(-1)"
 const exactPrefixEntry = "ParseSchemasWithLimit(2; a source of exactly 2 tokens, then the input)"
 
 func classifyErr(err error, o *totOut) {
@@ -119,6 +120,14 @@ func runTotal(text string, only string) totCase {
 		{"ParseSchemaWithLimit(3)", func() (bool, error) { d, e := parser.ParseSchemaWithLimit(src(), 3); return d != nil, e }},
 		{"ParseSchemas", func() (bool, error) { d, e := parser.ParseSchemas(src()); return d != nil, e }},
 		{"ParseSchemasWithLimit(2)", func() (bool, error) { d, e := parser.ParseSchemasWithLimit(2, src()); return d != nil, e }},
+		// a negative limit is a finite limit too: no input has that few tokens
+		{"ParseQueryWithTokenLimit(-1)", func() (bool, error) { d, e := parser.ParseQueryWithTokenLimit(src(), -1); return d != nil, e }},
+	}
+	if only == negLimitEntry {
+		entries = []entry{
+			{negLimitEntry, func() (bool, error) { d, e := parser.ParseSchemaWithLimit(src(), -1); return d != nil, e }},
+			{negLimitEntry + " (query)", func() (bool, error) { d, e := parser.ParseQueryWithTokenLimit(src(), -5); return d != nil, e }},
+		}
 	}
 	if only == exactPrefixEntry {
 		// a first source that uses up the limit exactly, then the input: every source has the limit to itself
@@ -572,6 +581,7 @@ func checkC01(c *core.Ctx) {
 	// it must come back with the limit error, whatever stands before it in the same call
 	for _, f := range []string{"schema-open-type", "schema-open-default"} {
 		reqs = append(reqs, totReq{Family: f, Size: 8 << 20, NoIn: true, Only: exactPrefixEntry})
+		reqs = append(reqs, totReq{Family: f, Size: (8 << 20) + 1, NoIn: true, Only: negLimitEntry})
 	}
 	descr := func(i int) string {
 		if reqs[i].Family != "" {
@@ -599,7 +609,7 @@ func checkC01(c *core.Ctx) {
 			// returned at all, without a crash or the watchdog, is what the child process established)
 			for _, o := range tc.Outs {
 				if !o.Err {
-					c.Violation(fmt.Sprintf("%s on %s: parsed although the input has millions of tokens and the limit is 2", o.E, descr(i)), map[string]any{"request": reqs[i], "entry": o.E})
+					c.Violation(fmt.Sprintf("%s on %s: parsed although the input has millions of tokens and the limit is 2 or negative", o.E, descr(i)), map[string]any{"request": reqs[i], "entry": o.E})
 				}
 			}
 			return
